@@ -111,7 +111,7 @@ def run(ctx):
     ctx.extra["disagreements_checked"] = len(codes)
     if new:
         j, r, n, c = min(new, key=lambda x: len(x[0]["src"]))
-        ctx.violation("failing-input", {"what": "the compiler emitted a WebAssembly binary that is not a valid WebAssembly 1.0 module", "case_kind": j["kind"], "source": j["src"], "hex": r["hex"],
+        ctx.violation("failing-input", {"what": "the compiler emitted a WebAssembly binary that is not a valid WebAssembly 1.0 module", "case_kind": j["kind"], "source": j["src"], "compiled_before_on_the_same_Compiler_object": j.get("before", []), "hex": r["hex"],
                                         "coq_verdict": {0: "valid", 1: "malformed", 2: "invalid", 3: "outside the modelled fragment"}[c], "v8": {"valid": n["valid"], "error": n.get("error")},
                                         "count": len(new), "kinds": sorted({x[0]["kind"] for x in new})})
     ctx.extra["generator_model"] = {"compared": len(gcodes), "differs": len(gbad)}
